@@ -54,9 +54,12 @@ def h19b_next(S):
         has_du = S.bool("has_deferred_until")
         du = S.int("deferred_until", Y1970, Y2100)
         has_p = S.bool("has_period")
+        has_prev = S.bool("has_previous_slot")
+        prev = S.int("previous_slot", Y1970, Y2100)
         delay = P.DelayProperties(
             delay_until=S.datetime_us(du) if has_du else None,
             defer_by=S.timedelta_us(p) if has_p else None,
+            next_execution_time=S.datetime_us(prev) if has_prev else None,
         )
         params = P.Parameters(delay=delay, timestamp=S.datetime_us(ts))
         r = params.compute_next_execution_time
@@ -77,7 +80,10 @@ def h19b_next(S):
         ru = vtime.dt_us(r)
         S.check("strictly-future", ru > now)
         S.check("at-most-one-period-ahead", ru <= now + p)
-        S.check("whole-periods-after-time-base", (ru - ts) % p == 0)
+        # time base: the previous slot if the job has run before, else the deferred start, else creation
+        base = prev if has_prev else (du if has_du else ts)
+        S.check("whole-periods-after-time-base", (ru - base) % p == 0)
+        S.check("no-slot-skipped", ru - p <= now)
     finally:
         vtime.set_clock(None)
 
